@@ -61,7 +61,7 @@ def strategy():
                                   "direction": st.sampled_from(["publish", "call", "call-error"]), "args": vals, "kwargs": kws,
                                   "ser": st.sampled_from(["json", "cbor", "msgpack"]), "xor": st.integers(1, 255), "seed": st.integers(0, 1 << 20),
                                   "empty": st.sampled_from([False, False, False, True]),
-                                  "progress": st.booleans(), "prefix_reg": st.sampled_from([False, False, True]), "caller_defines": st.booleans(), "handlers": st.sampled_from([1, 1, 2, 3])})     # calls ask for progressive results: encrypted progressive chunks reach on_progress exactly or not at all    # a request without any arguments (the result still carries the secret)
+                                  "progress": st.booleans(), "prefix_reg": st.sampled_from([False, False, True]), "caller_defines": st.booleans(), "handlers": st.sampled_from([1, 1, 2, 3]), "prefix_kw": st.sampled_from([False, False, True])})     # calls ask for progressive results: encrypted progressive chunks reach on_progress exactly or not at all    # a request without any arguments (the result still carries the secret)
 
 
 def keyrings(layout):
@@ -262,6 +262,11 @@ def check_flow(c, n_xors=1):
                 if sid == 901 and c.get("prefix_reg"):
                     # pattern-based registration: the dealer names the concrete procedure in INVOCATION.details.procedure
                     tr = r.track(r.call(lambda: r.session.register(endpoint, "com.myapp.pro", RegisterOptions(match="prefix", details_arg="details"))))
+                elif c.get("prefix_kw"):
+                    # register(..., prefix=...): the procedure is given relative to a URI prefix; the registration is for the full URI
+                    tr = r.track(r.call(lambda name=name: r.session.register(endpoint, name[len("com.myapp."):], RegisterOptions(details_arg="details"), prefix="com.myapp.")))
+                    if r.t.sent[-1].procedure != name:
+                        raise Violation("C20|register|prefix-not-applied", "REGISTER carries %r" % (r.t.sent[-1].procedure,), c)
                 else:
                     tr = r.track(r.call(lambda name=name: r.session.register(endpoint, name, RegisterOptions(details_arg="details"))))
                 r.feed(M.Registered(r.t.sent[-1].request, sid))
